@@ -141,8 +141,20 @@ def generate(rng, tier, index):
     # ---- configuration -------------------------------------------------------
     cfg_home = rng.choice(dirs[1:4])
     nres = rng.randint(1, 5)
+    def top_name(ext):
+        """Name of a top resource (nothing refers to it from inside a text,
+        so it may even begin or end with a blank)."""
+        n = _name(rng, used, ext)
+        r = rng.random()
+        if r < 0.12:
+            n = n + " "
+        elif r < 0.17:
+            n = " " + n
+        elif r < 0.2:
+            n = n + "\t"
+        return n
     res = [{"id": "r0", "dir": cfg_home,
-            "file": _name(rng, used, ".conf"), "children": []}]
+            "file": top_name(".conf"), "children": []}]
     for k in range(1, nres):
         parent = rng.choice(res[:3])
         r = {"id": "r%d" % k, "dir": place(rng, parent["dir"]),
@@ -189,7 +201,7 @@ def generate(rng, tier, index):
     emit(res[0])
     # ---- schema ----------------------------------------------------------------
     sch_home = rng.choice(dirs[1:5])
-    sch = {"top": os.path.join(sch_home, _name(rng, used, ".xml"))}
+    sch = {"top": os.path.join(sch_home, top_name(".xml"))}
     b1 = os.path.join(place(rng, sch_home), _name(rng, used, ".xml"))
     have_b2 = rng.random() < 0.5
     have_c1 = rng.random() < 0.7
@@ -601,6 +613,40 @@ def _execute(plan, out, root, root_b, scratch):
                              plan["schema_files"], False, base)
             probe("chdir-to-twin-tree")
             os.chdir(cwd)
+        # ---- the files are rewritten between two loads through ONE loader ---
+        # (path, URL and file-object entries of one ConfigLoader / one
+        # SchemaLoader: each load reaches the resource as it is NOW)
+        want_b = {"k": ["T-" + x for x in plan["expect_k"]],
+                  "s": [[n, ["T-" + x for x in ks]]
+                        for n, ks in plan["expect_s"]]}
+        ld = ZConfig.loader.ConfigLoader(schema)
+        for phase, wnt, twin in (("first", want, False),
+                                 ("rewritten", want_b, True),
+                                 ("restored", want, False)):
+            if phase != "first":
+                materialise(plan, root, twin=twin)
+            for entry in ("abs-path", "url", "file-abs"):
+                w.begin_op("config:same-loader:%s:%s" % (phase, entry))
+
+                def run3():
+                    cfg, _h = _enter(entry, cfull, ld.loadURL, ld.loadFile)
+                    return {"ok": True, "got": {
+                        "k": list(cfg.k),
+                        "s": [[x.getSectionName(), list(x.k)]
+                              for x in cfg.s]}}
+                o = ops.guarded(run3)
+                w.end_op("ok" if o["ok"] else o["cls"])
+                out["evaluations"] += 1
+                if not o["ok"]:
+                    violation("load-failed", "config-same-loader",
+                              "one ConfigLoader, files %s: configuration by "
+                              "%s raised %s" % (phase, entry, ops.brief(o)))
+                elif o["got"] != wnt:
+                    violation("wrong-result", "config-same-loader",
+                              "one ConfigLoader, files %s: configuration by "
+                              "%s gives %r, the files say %r"
+                              % (phase, entry, o["got"], wnt))
+        probe("files-rewritten-between-loads")
         probe("cwd:" + ("outside" if plan["cwd"] in ("/", "outside")
                         else "inside"))
         if any(ord(c) > 127 for p in plan["files"] for c in p):
